@@ -2664,6 +2664,7 @@ sscanf:
         L_SSCANF '(' expr0 ',' expr0 lvalue_list ')'
             {
                 lpc_type_t p = (lpc_type_t)$6->v.number;
+                check_argument_count($6->v.number, 0);
                 CREATE_LVALUE_EFUN($$, TYPE_NUMBER, $6);
                 CREATE_BINARY_OP_1($$->l.expr, F_SSCANF, 0, $3, $5, p);
             }
@@ -2673,6 +2674,7 @@ parse_command:
         L_PARSE_COMMAND '(' expr0 ',' expr0 ',' expr0 lvalue_list ')'
             {
                 lpc_type_t p = (lpc_type_t)$8->v.number;
+                check_argument_count($8->v.number, 0);
                 CREATE_LVALUE_EFUN($$, TYPE_NUMBER, $8);
                 CREATE_TERNARY_OP_1($$->l.expr, F_PARSE_COMMAND, 0, $3, $5, $7, p);
             }
@@ -2810,6 +2812,7 @@ function_call:
               int f;
 
               $$ = $3;
+              check_argument_count($3->v.number, 0);
               if ((f = $1->dn.function_num) != -1) {
                   if (FUNCTION_FLAGS(f) & NAME_HIDDEN) {
                       char buf[256];
@@ -2881,6 +2884,7 @@ function_call:
               char *name = $1;
 
               $$ = $3;
+              check_argument_count($3->v.number, 0);
               
               if (*name == ':'){
                   arrange_call_inherited(name + 1, $$);
@@ -2935,6 +2939,7 @@ function_call:
             {
                 parse_node_t *expr, *expr2;
                 $$ = $5;
+                check_argument_count($5->v.number, 2);
                 $$->kind = NODE_EFUN;
                 $$->l.number = $$->v.number + 2;
                 $$->v.number = F_CALL_OTHER;
@@ -2962,6 +2967,7 @@ function_call:
                 parse_node_t *expr;
 
                 $$ = $6;
+                check_argument_count($6->v.number, 1);
                 $$->kind = NODE_EFUN;
                 $$->l.number = $$->v.number + 1;
                 $$->v.number = F_EVALUATE;
